@@ -20,12 +20,16 @@ import (
 // inside package paths and directory names.
 type layout struct {
 	Mod, Entry, Dep, Other string
+	// Nested: a second module lives below the module root under a path that has the module path as a prefix
+	// (monorepo style, wired in by a replace directive) and is imported by Dep; it is nobody's to touch
+	Nested string
 }
 
 var layouts = []layout{
-	{"x.io/test", "p", "dep", "other"},
-	{"app", "p/app", "app", "other/app"},
-	{"x.io/te.st/v2", "p/v2/x.io/te.st", "v2", "te.st/v2"},
+	{"x.io/test", "p", "dep", "other", ""},
+	{"app", "p/app", "app", "other/app", ""},
+	{"x.io/te.st/v2", "p/v2/x.io/te.st", "v2", "te.st/v2", ""},
+	{"x.io/test", "p", "dep", "other", "plugins"},
 }
 
 var modPath = layouts[0].Mod
@@ -100,7 +104,15 @@ func buildModule(base string, subsets []int) pipe.Tree {
 		name := fmt.Sprintf("k%03d", s)
 		add(lay.Entry+"/"+name, name, s, modPath+"/"+lay.Dep)
 	}
-	add(lay.Dep, "dep", 1<<nPre-1, "")
+	if lay.Nested != "" {
+		nm := modPath + "/" + lay.Nested
+		t["go.mod"] = pipe.GoMod(modPath, "1.24") + "\nrequire " + nm + " v0.0.0\n\nreplace " + nm + " => ./" + lay.Nested + "\n"
+		t[lay.Nested+"/go.mod"] = pipe.GoMod(nm, "1.24")
+		add(lay.Nested+"/np", "np", 1<<nPre-1, "")
+		add(lay.Dep, "dep", 1<<nPre-1, nm+"/np")
+	} else {
+		add(lay.Dep, "dep", 1<<nPre-1, "")
+	}
 	add(lay.Other, "other", 1<<nPre-1, "")
 	return t
 }
@@ -168,7 +180,7 @@ func checkCase(c *core.Ctx, cs Case) {
 				c.Fail("", cs, "run %d: entry package %s was not processed", ri+1, d)
 			}
 		}
-		if processed[lay.Other] || (!r.All && processed[lay.Dep]) {
+		if processed[lay.Other] || (!r.All && processed[lay.Dep]) || (lay.Nested != "" && processed[lay.Nested+"/np"]) {
 			c.Fail("", cs, "run %d: a package that was not selected was processed: %v", ri+1, keys(processed))
 		}
 		created, changed, deleted := pipe.Diff(before, after)
@@ -362,7 +374,7 @@ func replay(c *core.Ctx, raw json.RawMessage) {
 func init() {
 	core.Register(&core.Prop{
 		ID: "C07", Level: "model_checking", Run: run, Replay: replay,
-		Rule: "histories of 1 and 2 real runs over all 25 (g1,g2) behaviour pairs {render, nothing, ErrSkip, ErrIgnore, ErrIgnore+render} per run x All on/off per run x base names, each run processing one package per subset of 8 pre-existing file kinds plus an imported and a never-selected package, in 3 module layouts (two of them with the module path re-occurring inside package paths); every file of the module is compared before/after; non-trivial = every case (each contains look-alike and stale files); states = distinct (behaviour pair, All, run index, #created, #changed, #deleted)",
+		Rule: "histories of 1 and 2 real runs over all 25 (g1,g2) behaviour pairs {render, nothing, ErrSkip, ErrIgnore, ErrIgnore+render} per run x All on/off per run x base names, each run processing one package per subset of 8 pre-existing file kinds plus an imported and a never-selected package, in 4 module layouts (two with the module path re-occurring inside package paths, one with a nested module below the root whose path extends the module path and which the imported package imports); every file of the module is compared before/after; non-trivial = every case (each contains look-alike and stale files); states = distinct (behaviour pair, All, run index, #created, #changed, #deleted)",
 		Assumptions: []string{
 			"a package counts as processed when a generator callback was invoked for it (cached packages of a second All run are not processed)",
 			"<base>.txt only has to stay inside the allowed set",
